@@ -399,6 +399,9 @@ def exec_case(case, log, stats):
     if snapshot(fresh0) != snap0:
         stats.inc("degenerate_world")
         return None
+    if snapshot(fresh1) != snap0:
+        stats.inc("observer_not_idempotent")  # serialisers changed the tree: not C14's to judge
+        return None
     eq0 = equal_both_ways(fresh1, fresh0)
     sch = sched.Scheduler(
         len(case["threads"]),
